@@ -7,7 +7,17 @@ import (
 	"os"
 	"strconv"
 	"strings"
+	"sync"
 	"syscall"
+)
+
+// inherited holds the os.File of every inherited descriptor that has been
+// used. An os.File that is no longer referenced closes its descriptor when
+// it is garbage collected; the descriptor passed by the service manager has
+// to stay open, so that a later Bind/Listen in this process finds it again.
+var (
+	inheritedMutex sync.Mutex
+	inherited      = map[int]*os.File{}
 )
 
 func activationListener() net.Listener {
@@ -53,7 +63,14 @@ func activationListener() net.Listener {
 
 	syscall.CloseOnExec(fd)
 
-	file := os.NewFile(uintptr(fd), "varlink")
+	inheritedMutex.Lock()
+	file := inherited[fd]
+	if file == nil {
+		file = os.NewFile(uintptr(fd), "varlink")
+		inherited[fd] = file
+	}
+	inheritedMutex.Unlock()
+
 	listener, err := net.FileListener(file)
 	if err != nil {
 		return nil
